@@ -59,7 +59,7 @@ def one_tree(g, np, p1, basis, item, limit):
         signal.setitimer(signal.ITIMER_REAL, 0)
         rec.update(status="raise", etype=type(e).__name__, msg=str(e)[:300],
                    where=[("%s:%d %s" % (os.path.basename(f.filename), f.lineno, f.name))
-                          for f in traceback.extract_tb(e.__traceback__)[-3:]])
+                          for f in traceback.extract_tb(e.__traceback__) if os.sep + "esr" + os.sep in f.filename][-3:])
         return rec
     finally:
         signal.setitimer(signal.ITIMER_REAL, 0)
